@@ -1,5 +1,126 @@
 import ZoektModel.Basic.Proto
+import ZoektModel.C01.Spec
 namespace ZoektModel.C01
-/-- stub: no model driver for C01 yet -/
-def main : IO Unit := ZoektModel.Proto.runLines (fun _ => ZoektModel.Proto.badCase "no model driver for C01")
+open ZoektModel ZoektModel.Proto
+
+/-! line protocol of the C01 model driver; see harness/cmd/c01/trace.go for the Go side -/
+
+def bits? (s : String) : Option (List Bool) :=
+  if s == "-" then some [] else
+  s.toList.mapM fun c => if c == '1' then some true else if c == '0' then some false else Option.none
+
+/-- documents separated by `|`, runes by `,`, `-` = empty document -/
+def docs? (s : String) : Option (List (List Nat)) := (s.splitOn "|").mapM natList?
+
+/-- posting lists of the case variants of one trigram: lists separated by `/` -/
+def variants? (s : String) : Option Basic :=
+  if s == "-" then some [] else (s.splitOn "/").mapM natList?
+
+def ends (texts : List (List Nat)) : List Nat :=
+  (texts.foldl (fun (acc : Nat × List Nat) t => (acc.1 + t.length, (acc.1 + t.length) :: acc.2)) (0, [])).2.reverse
+
+/-- prefix-notation token stream -> tree -/
+partial def parseTree (ctx : Ctx) : List String → Option (MT × List String)
+  | [] => Option.none
+  | tok :: rest =>
+    let children (n : Nat) (rest : List String) : Option (MTs × List String) := do
+      let mut acc : List MT := []
+      let mut r := rest
+      for _ in [0:n] do
+        let (c, r') ← parseTree ctx r
+        acc := c :: acc
+        r := r'
+      pure (MTs.ofList acc.reverse, r)
+    match tok.splitOn ":" with
+    | ["A", n] => do let (ch, r) ← children (← n.toNat?) rest; pure (.and Option.none ch, r)
+    | ["L", n] => do let (ch, r) ← children (← n.toNat?) rest; pure (.andLine Option.none Option.none ch, r)
+    | ["O", n] => do let (ch, r) ← children (← n.toNat?) rest; pure (.or Option.none ch, r)
+    | ["N"] => do let (c, r) ← parseTree ctx rest; pure (.not Option.none c, r)
+    | ["F"] => do let (c, r) ← parseTree ctx rest; pure (.fileName Option.none c, r)
+    | ["B"] => do let (c, r) ← parseTree ctx rest; pure (.boost Option.none c, r)
+    | ["V"] => do let (c, r) ← parseTree ctx rest; pure (.noVisit c, r)
+    | ["T"] => some (.brute false 0, rest)
+    | ["Z"] => some (.none, rest)
+    | ["D", b] => do pure (.doc false (← bits? b) false 0, rest)
+    | ["H", b] => do pure (.doc true (← bits? b) false 0, rest)
+    | ["R", f, b] => do pure (.re false (← bool? f) (← bits? b) false 0 false false, rest)
+    | ["W", f, b] => do pure (.re true (← bool? f) (← bits? b) false 0 false false, rest)
+    | ["X", f, cs, pat] => do pure (.sub ⟨← bool? f, ← bool? cs, ← natList? pat, Option.none, [], false⟩, rest)
+    | ["S", f, cs, lp, rp, dist, p1, p2, pat] => do
+      let f ← bool? f
+      let d ← dist.toNat?
+      let v1 ← variants? p1
+      let v2 ← variants? p2
+      let it : Hit := if d = 0 then .basic v1 else .dist ⟨v1, v2, d, false⟩
+      let e := ends (if f then ctx.names else ctx.contents)
+      pure (.sub ⟨f, ← bool? cs, ← natList? pat, some ⟨← lp.toNat?, ← rp.toNat?, it, e, 0⟩, [], false⟩, rest)
+    | _ => Option.none
+
+mutual
+partial def shape : MT → List String
+  | .doc false _ _ _ => ["D"]
+  | .doc true _ _ _ => ["H"]
+  | .brute _ _ => ["T"]
+  | .none => ["Z"]
+  | .re false _ _ _ _ _ _ => ["R"]
+  | .re true _ _ _ _ _ _ => ["W"]
+  | .sub s => [if s.it.isNone then "X" else "S"]
+  | .and _ ch => s!"A{ch.length}" :: shapes ch
+  | .andLine _ _ ch => s!"L{ch.length}" :: shapes ch
+  | .or _ ch => s!"O{ch.length}" :: shapes ch
+  | .not _ c => "N" :: shape c
+  | .fileName _ c => "F" :: shape c
+  | .boost _ c => "B" :: shape c
+  | .noVisit c => "V" :: shape c
+partial def shapes : MTs → List String
+  | .nil => []
+  | .cons h t => shape h ++ shapes t
+end
+
+def showRaw (n : Nat) : String := if n = maxU32 then "M" else toString n
+
+def showSt : St → String
+  | .higher => "H" | .found => "F" | .none => "N"
+
+def showCands (cs : List (List Nat)) : String :=
+  if cs.isEmpty then "_" else
+  "+".intercalate (cs.map fun l => if l.isEmpty then "-" else ".".intercalate (l.map toString))
+
+def render (o : SearchOut) (shapeStr : String) : String :=
+  let vs := o.visits.map fun (v, cs) =>
+    s!"{v.doc}:{showRaw v.raw}:{String.join (v.states.map showSt)}:{showCands cs}"
+  let vstr := if vs.isEmpty then "-" else ",".intercalate vs
+  s!"tree={shapeStr} v={vstr} last={showRaw o.lastRaw} res={showNatList o.res}{if o.panicked then " PANIC" else ""}"
+
+/-- the `res=` field of an implementation output line -/
+def implRes? (impl : String) : Option (List Nat) :=
+  match (fields impl).filter (·.startsWith "res=") with
+  | [r] => natList? (r.drop 4).toString
+  | _ => Option.none
+
+def handleSearch (live names contents tree impl : String) : String :=
+  match bits? live, docs? names, docs? contents with
+  | some live, some names, some contents =>
+    if names.length ≠ live.length ∨ contents.length ≠ live.length then badCase "doc counts" else
+    let ctx : Ctx := ⟨names, contents, live⟩
+    match parseTree ctx (tree.splitOn ";") with
+    | some (mt, []) =>
+      let model :=
+        match search ctx mt with
+        | Option.none => "tree=nil"
+        | some o => render o (".".intercalate (shape ((mt.prune).getD .none)))
+      let res := if impl == "tree=nil" then some [] else implRes? impl
+      match res with
+      | Option.none => badCase "impl output"
+      | some r => if checkP ctx mt r then answer model else specFail model "search-result-differs-from-scan"
+    | _ => badCase "tree"
+  | _, _, _ => badCase "fields"
+
+def handle (line : String) : String :=
+  let (inp, impl) := splitCase line
+  match fields inp with
+  | ["search", live, names, contents, tree] => handleSearch live names contents tree impl
+  | _ => badCase "op"
+
+def main : IO Unit := runLines handle
 end ZoektModel.C01
